@@ -572,6 +572,11 @@ def parse_options_header(value: str | None) -> tuple[str, dict[str, str]]:
         if match:
             # key*0=a; key*1=b becomes key=ab
             pk = pk[: match.start()]
+
+            if not pk:
+                # *0=value has no key, it is not valid
+                continue
+
             options[pk] = options.get(pk, "") + pv
         else:
             options[pk] = pv
